@@ -33,7 +33,7 @@ Fixpoint construct_fields (mv : bool) (L : list param) (fls fld : list (Z * Z)) 
   match L, fls, fld with
   | p :: L', (sa, c) :: fls', (da, _) :: fld' =>
       let '(ms1, md1, e1) :=
-        if ntc p then relocate_objs mv p sb db ms md sa da (Z.to_nat c) else (ms, md, []) in
+        if ntc mv p then relocate_objs mv p sb db ms md sa da (Z.to_nat c) else (ms, md, []) in
       let '(ms2, md2, e2) := construct_fields mv L' fls' fld' sb db ms1 md1 in
       (ms2, md2, e1 ++ e2)
   | _, _, _ => (ms, md, [])
